@@ -7,6 +7,7 @@ CONSTANTS
   ModLocs = {}
   PVals = {1, 2}
   MVals = {}
+  OVals = {101}
   WithDelSpace = FALSE
   OpenFindings = {}
   MaxOps = 4
